@@ -306,3 +306,28 @@ def fabric_start_bad(sc, sysm):
 def callers_open(sc, sysm):
   n = sc.info["ncallers"]
   return lambda B, st: B.or_(*[B.not_(ended(sysm, B, st, t)) for t in range(n)])
+
+
+# ---- rejecting scenario (C31) ---------------------------------------------------------------------------------------------------
+def rejecting_bad(sc, sysm):
+  """the rejected source posted its event (at any time); or the post was accepted although the object tracks its maximum; or a tracked
+  source lost its run flag or its place; or somebody crashed"""
+  crash = any_crash(sc, sysm)
+  flags = sc.info["old_flags"]
+  cap = sc.info["capacity"]
+
+  def f(B, st):
+    bad = [crash(B, st), B.not_(B.eq(st["g.posts_by_new"], B.const(0))), B.eq(st["g.accepted"], B.const(1))]
+    for fl in flags:
+      bad.append(B.eq(st[fl + ".flag"], B.const(0)))
+    bad.append(B.and_(B.eq(st["g.rejected"], B.const(1)), B.not_(B.eq(st["tracked.len"], B.const(cap)))))
+    return B.or_(*bad)
+  return f
+
+
+rejected = g_is("g.rejected")
+
+
+def new_flag_left_up(sc, sysm):
+  """the call was rejected and returned, yet the rejected source's run flag is up (its thread, if any, would go on posting)"""
+  return lambda B, st: B.and_(B.eq(st["g.rejected"], B.const(1)), B.eq(st["new.run.flag"], B.const(1)), ended(sysm, B, st, 0))
